@@ -187,6 +187,17 @@ Definition fl0 : fl := (false, false).
 Definition orf (a b : fl) : fl := (fst a || fst b, snd a || snd b).
 Definition fl_unproved : fl := (true, false).
 
+(* the two situations in which the pass leaves, in code that can never run, an operand naming a statement it
+   has dropped (the statements after an unconditional Break):
+   - the optimised body of a loop that is kept ends in a Break at top level, and the loop still has loop
+     variables: their loop values (evaluated only when the body falls through, which it never does) may name
+     statements after that Break;
+   - an optimised branch of an if-else ends in a Break at top level, and the if-else has final assignments:
+     that branch's side of each final assignment (read only when the branch falls through) likewise. *)
+Definition dead_loop_values (body : list stmt) (lvs : list triple) : bool := ends_break body && negb (is_nil lvs).
+Definition dead_final_assignments (o1 o2 : list stmt) (fas : list triple) : bool :=
+  (ends_break o1 || ends_break o2) && negb (is_nil fas).
+
 (* which code is modelled: the pass as it is now (both true), or before one of the two repairs made after
    findings of this check:  v_guard  = fix 6cdc437 (the first iteration replaces the loop only if the rest of
    the body has no break of this loop);  v_optinit = fix fef18b5 (an unchanging loop variable is bound to the
@@ -438,7 +449,7 @@ Fixpoint ccp_stmt (g : ver) (n : nat) (st : stmt) (c : cx) {struct n} : option R
                             Some (if is_nil o1 && is_nil o2 && is_nil fas' then [] else [SIf cond o1 o2 fas'],
                                   c', false,
                                   orf (orf f1 f2)
-                                      (if (ends_break o1 || ends_break o2) && negb (is_nil fas) then fl_unproved else fl0))
+                                      (if dead_final_assignments o1 o2 fas then fl_unproved else fl0))
                         end
                     end
                 end
@@ -494,7 +505,7 @@ Fixpoint ccp_stmt (g : ver) (n : nat) (st : stmt) (c : cx) {struct n} : option R
                     | None => None
                     | Some (out, c2, b, f2) =>
                         Some (out, c2, b, orf (orf (orf f0 f1) f2)
-                                              (if ends_break body && negb (is_nil lvs') then fl_unproved else fl0))
+                                              (if dead_loop_values body lvs' then fl_unproved else fl0))
                     end
                 end
             end
@@ -511,6 +522,9 @@ Definition ccp_gen (g : ver) (f : func) : option (func * fl) :=
   | Some (out, c, _, f1) => Some (mkfunc (f_params f) out (opt_expr (cx_v c) (f_ret f)), f1)
   end.
 Definition ccp : func -> option (func * fl) := ccp_gen ver_now.
+(* decidable: while optimising f the pass (as it is now) met one of the two situations above *)
+Definition dead_final_operands (f : func) : bool := match ccp f with Some (_, fl) => fst fl | None => false end.
+Definition no_dead_final_operands (f : func) : Prop := dead_final_operands f = false.
 Definition ccp_old : func -> option (func * fl) := ccp_gen (mkver false false).      (* before fix 6cdc437 *)
 Definition ccp_old2 : func -> option (func * fl) := ccp_gen (mkver true false).      (* after 6cdc437, before fef18b5 *)
 
